@@ -7,7 +7,7 @@ import (
 	"go/constant"
 	"go/token"
 	"go/types"
-	"math"
+	"math/big"
 	"os"
 	"path/filepath"
 	"regexp"
@@ -2083,13 +2083,15 @@ func r09BuiltinCellSizesHalve(c *core.Ctx) {
 		var doc struct {
 			TileMatrices []struct {
 				ID                   string          `json:"id"`
-				CellSize             float64         `json:"cellSize"`
+				CellSize             json.Number     `json:"cellSize"`
 				MatrixWidth          int64           `json:"matrixWidth"`
 				MatrixHeight         int64           `json:"matrixHeight"`
 				VariableMatrixWidths json.RawMessage `json:"variableMatrixWidths"`
 			} `json:"tileMatrices"`
 		}
-		if err := json.Unmarshal(b, &doc); err != nil {
+		dec := json.NewDecoder(strings.NewReader(string(b)))
+		dec.UseNumber()
+		if err := dec.Decode(&doc); err != nil {
 			c.Bad(R, construct, token.NoPos, "document does not parse: "+err.Error())
 			continue
 		}
@@ -2117,21 +2119,85 @@ func r09BuiltinCellSizesHalve(c *core.Ctx) {
 			continue // not a quadtree by its shape: IsQuadTree's own conditions (R38) turn it down
 		}
 		checked++
-		c0 := doc.TileMatrices[byID[0]].CellSize
-		worst, at := 0.0, int64(0)
+		// each declared value v_z stands for the interval v_z +/- 2 units of its last printed digit; scaled by 2^z
+		// all intervals must have a point in common: the one cell size of matrix 0 that explains them all
+		type iv struct{ lo, hi *big.Rat }
+		ivs := make([]iv, len(doc.TileMatrices))
+		okParse := true
 		for id := int64(0); id < int64(len(doc.TileMatrices)); id++ {
-			want := c0 / float64(int64(1)<<uint(id))
-			dev := math.Abs(doc.TileMatrices[byID[id]].CellSize/want - 1)
-			if dev > worst {
-				worst, at = dev, id
+			txt := doc.TileMatrices[byID[id]].CellSize.String()
+			v, ok := new(big.Rat).SetString(txt)
+			if !ok {
+				okParse = false
+				break
+			}
+			digits := 0
+			mant := txt
+			exp := 0
+			if k := strings.IndexAny(txt, "eE"); k >= 0 {
+				mant = txt[:k]
+				exp, _ = strconv.Atoi(txt[k+1:])
+			}
+			if k := strings.Index(mant, "."); k >= 0 {
+				digits = len(mant) - k - 1
+			}
+			ulp := new(big.Rat).SetFrac(big.NewInt(1), new(big.Int).Exp(big.NewInt(10), big.NewInt(int64(digits)), nil))
+			if exp != 0 {
+				sc := new(big.Rat).SetInt(new(big.Int).Exp(big.NewInt(10), big.NewInt(int64(abs(exp))), nil))
+				if exp > 0 {
+					ulp.Mul(ulp, sc)
+				} else {
+					ulp.Quo(ulp, sc)
+				}
+			}
+			tol := new(big.Rat).Mul(ulp, big.NewRat(2, 1))
+			scale := new(big.Rat).SetInt(new(big.Int).Lsh(big.NewInt(1), uint(id)))
+			ivs[id] = iv{new(big.Rat).Mul(new(big.Rat).Sub(v, tol), scale), new(big.Rat).Mul(new(big.Rat).Add(v, tol), scale)}
+		}
+		if !okParse {
+			c.Bad(R, construct, token.NoPos, "a cell size is not a number")
+			continue
+		}
+		common := func(skip int) bool {
+			var lo, hi *big.Rat
+			for i, x := range ivs {
+				if i == skip {
+					continue
+				}
+				if lo == nil || x.lo.Cmp(lo) > 0 {
+					lo = x.lo
+				}
+				if hi == nil || x.hi.Cmp(hi) < 0 {
+					hi = x.hi
+				}
+			}
+			return lo == nil || lo.Cmp(hi) <= 0
+		}
+		if common(-1) {
+			c.OK(R, construct, token.NoPos, fmt.Sprintf("%d matrices: one cell size of matrix 0 explains every declared value to 2 units of its last printed digit (cellSize(z) = cellSize(0) / 2^z)", len(ivs)))
+			continue
+		}
+		culprit := ""
+		for i := range ivs {
+			if common(i) {
+				culprit += fmt.Sprintf("%d ", i)
 			}
 		}
-		c.Check(R, construct, token.NoPos, worst <= 1e-6, fmt.Sprintf("%d matrices, cell size halves per level (largest relative deviation %.2g)", len(doc.TileMatrices), worst),
-			fmt.Sprintf("tile matrix %d declares a cell size that is %.3g (relative) off cellSize(0)/2^%d: the set still passes IsQuadTree's 1%% tolerance, but the index takes every pixel size from matrix 0, so coordinates of that matrix are no longer on its own grid", at, worst, at))
+		if culprit == "" {
+			culprit = "several"
+		}
+		c.Bad(R, construct, token.NoPos, "the declared cell sizes do not halve per level: no cell size of matrix 0 explains them all to 2 units of their last printed digit (odd one out: tile matrix "+strings.TrimSpace(culprit)+"); the set still passes IsQuadTree's 1% tolerance, but the index takes every pixel size and the whole extent from matrix 0, so coordinates of the other matrices are no longer on their own grid")
 	}
 	if checked < 7 {
 		c.Bad(R, "builtin-cell-sizes-halve/inventory", token.NoPos, fmt.Sprintf("%d embedded documents have the shape of a quadtree, 7 confirmed by hand", checked))
 	}
+}
+
+func abs(x int) int {
+	if x < 0 {
+		return -x
+	}
+	return x
 }
 
 func init() {
@@ -2276,4 +2342,149 @@ func r46ContainmentCountedOverAllVertices(c *core.Ctx) {
 		}
 	}
 	c.Check(R, construct, calls[0].Site.Pos(), why == "", "ringContains(shell, v) for v over all vertices of each hole", "hole matching does not look at every vertex of a hole: "+why)
+}
+
+func init() {
+	reg("R15p", r15pSnapperStageSequential)
+}
+
+// r15pSnapperStageSequential: what the snapper stage sends for one feature is computed in one goroutine, in the
+// order of the input: no function reachable from processing.processFeatures starts a goroutine.  Parts of a
+// multipolygon snapped concurrently come back in the order the goroutines finish, which differs from run to run.
+func r15pSnapperStageSequential(c *core.Ctx) {
+	const R = "R15p"
+	pf := c.Anchor(R, "processing.processFeatures")
+	if pf == nil || pf.SSA == nil {
+		return
+	}
+	reach := core.ReachableNoStdlibTransit(c.P.VTA(), pf.SSA)
+	n, bad := 0, ""
+	var fns []*ssa.Function
+	for f := range reach {
+		if modFollow(f) {
+			fns = append(fns, f)
+		}
+	}
+	sortFns(fns)
+	for _, f := range fns {
+		n++
+		for _, b := range f.Blocks {
+			for _, in := range b.Instrs {
+				if g, ok := in.(*ssa.Go); ok {
+					bad += fmt.Sprintf("%s in %s; ", c.P.Pos(g.Pos()), f.String())
+				}
+			}
+		}
+	}
+	c.Check(R, "snapper-stage-starts-no-goroutines/processing.processFeatures", pf.Decl.Pos(), bad == "" && n >= 10, fmt.Sprintf("%d module functions below processFeatures, no go statement", n), "the snapper stage computes a feature's result in several goroutines: the order of what it assembles depends on the schedule: "+bad)
+}
+
+func init() {
+	reg("R47", r47TypeNamesCaseInsensitive)
+	reg("R40", r40BuiltinIDsUnique)
+	reg("R44", r44SingleSuccessExit)
+}
+
+// r47TypeNamesCaseInsensitive: the geometry type name of a source table is matched whatever its case (GeoPackages
+// in the wild say "MultiPolygon" as well as "MULTIPOLYGON"): the name parameter of geometryTypeFromString is used
+// only as the argument of strings.ToUpper / ToLower / EqualFold (or handed on to a helper), never compared as it is.
+func r47TypeNamesCaseInsensitive(c *core.Ctx) {
+	const R = "R47"
+	f := c.Anchor(R, "gpkg.geometryTypeFromString")
+	if f == nil {
+		return
+	}
+	info := f.Pkg.TypesInfo
+	sig := f.Obj.Type().(*types.Signature)
+	if sig.Params().Len() != 1 {
+		return
+	}
+	prm := sig.Params().At(0)
+	n, bad := 0, ""
+	ast.Inspect(f.Decl.Body, func(x ast.Node) bool {
+		id, ok := x.(*ast.Ident)
+		if !ok || info.Uses[id] != prm {
+			return true
+		}
+		n++
+		path := pathTo(f.Decl.Body, id)
+		okUse := false
+		if len(path) >= 2 {
+			if call, isCall := path[len(path)-2].(*ast.CallExpr); isCall && core.IsCallTo(info, call, "strings.ToUpper", "strings.ToLower", "strings.EqualFold", "strings.TrimSpace") {
+				okUse = true
+			}
+		}
+		if !okUse {
+			bad += c.P.Pos(id.Pos()) + " "
+		}
+		return true
+	})
+	c.Check(R, "geometry-type-names-case-insensitive/"+f.Name, f.Decl.Pos(), bad == "" && n >= 1, "the name is folded to one case before it is looked up", "the geometry type name of the source is used as written (case-sensitively) at "+bad+": a source that says MultiPolygon is registered as GEOMETRY in the target")
+}
+
+// r40BuiltinIDsUnique: the decoder files tile matrices under their parsed id; two matrices with one id in a shipped
+// document silently become one.  For every embedded document the ids are pairwise distinct integers.
+func r40BuiltinIDsUnique(c *core.Ctx) {
+	const R = "R40"
+	files, _ := filepath.Glob(filepath.Join(c.P.RepoDir, "tms20", "tilematrixsets", "*.json"))
+	bad := ""
+	for _, fn := range files {
+		b, err := os.ReadFile(fn)
+		if err != nil {
+			bad += err.Error() + "; "
+			continue
+		}
+		var doc struct {
+			TileMatrices []struct {
+				ID string `json:"id"`
+			} `json:"tileMatrices"`
+		}
+		if err := json.Unmarshal(b, &doc); err != nil {
+			bad += filepath.Base(fn) + " does not parse; "
+			continue
+		}
+		seen := map[int64]bool{}
+		for _, m := range doc.TileMatrices {
+			id, err := strconv.ParseInt(m.ID, 10, 64)
+			if err != nil {
+				bad += fmt.Sprintf("%s: id %q is not an integer; ", filepath.Base(fn), m.ID)
+				continue
+			}
+			if seen[id] {
+				bad += fmt.Sprintf("%s: id %d occurs twice (the second matrix replaces the first when decoded); ", filepath.Base(fn), id)
+			}
+			seen[id] = true
+		}
+		if len(doc.TileMatrices) == 0 {
+			bad += filepath.Base(fn) + " has no tile matrices; "
+		}
+	}
+	c.Check(R, "builtin-tile-matrix-ids-unique", token.NoPos, bad == "" && len(files) >= 14, fmt.Sprintf("%d embedded documents, ids pairwise distinct integers", len(files)), "an embedded document does not survive decoding: "+bad)
+}
+
+// r44SingleSuccessExit: the identities of R44 are about the value ToNative / FromNative compute on their way to the
+// one successful return; a second successful exit (a shortcut for tile (0,0), a cached answer) is not covered by
+// them.  Each of the two has exactly one return whose ok result can be true.
+func r44SingleSuccessExit(c *core.Ctx) {
+	const R = "R44"
+	for _, name := range []string{"tms20.TileMatrixSet.ToNative", "tms20.TileMatrixSet.FromNative"} {
+		f := c.Anchor(R, name)
+		if f == nil || f.SSA == nil {
+			continue
+		}
+		n, where := 0, ""
+		for _, b := range f.SSA.Blocks {
+			for _, in := range b.Instrs {
+				ret, ok := in.(*ssa.Return)
+				if !ok || len(ret.Results) != 2 {
+					continue
+				}
+				if !isConstBool(ret.Results[1], false) {
+					n++
+					where += c.P.Pos(ret.Pos()) + " "
+				}
+			}
+		}
+		c.Check(R, "single-success-exit/"+name, f.Decl.Pos(), n == 1, "one successful return, the one the identities are about", fmt.Sprintf("%d returns can answer successfully (%s): a shortcut exit bypasses the formulas the other rules decide", n, where))
+	}
 }
